@@ -1,0 +1,47 @@
+//go:build verif
+
+// Machine-checked contracts for this package (comment-only; compiled only with
+// the build tag `verif`). Read by /verif/engine (govc); see /verif/DESIGN.md.
+package container
+
+// le32(s, o): the little-endian 32-bit word at byte offset o of s.
+//
+//@ pred le32(s, o) := int(s[o]) + 256*int(s[o+1]) + 65536*int(s[o+2]) + 16777216*int(s[o+3])
+//
+// DXBC container serialisation. prefix(i) is the number of bytes that parts
+// 0..i-1 occupy (8-byte part header + data each); the two axioms are its
+// definition, the lemmas are proved from them by induction.
+// The contract is the container's self-consistency: total size field == len,
+// part count, offset table entry k == start of part k, part k's size field ==
+// len(data_k), every write in bounds, the last part ends exactly at len(out).
+//
+//@ func (*Container).Bytes
+//@   mode int
+//@   tags C18 C10
+//@   ghost prefix (Int) Int
+//@   axiom [prefix0] prefix(0) == 0
+//@   axiom [prefixS] forall i int {prefix(i+1)} :: 0 <= i && i < len(c.parts) ==> prefix(i+1) == prefix(i) + 8 + len(c.parts[i].data)
+//@   requires [recv] c != nil
+//@   requires [few] len(c.parts) <= 1024
+//@   requires [lens] forall i int {c.parts[i]} :: 0 <= i && i < len(c.parts) ==> 0 <= len(c.parts[i].data) && len(c.parts[i].data) <= 2147483648
+//@   lemma [nonneg] by induction i from 0 :: {prefix(i)} i <= len(c.parts) ==> 0 <= prefix(i) && prefix(i) <= i * 2147483656
+//@   lemma [mono] by induction j from 0 :: {prefix(j)} forall i int {prefix(i)} :: 0 <= i && i <= j && j <= len(c.parts) ==> prefix(i) <= prefix(j)
+//@   ensures [len] len(result) == 32 + 4*len(c.parts) + prefix(len(c.parts))
+//@   ensures [total-size-field] le32(result, 24) == (32 + 4*len(c.parts) + prefix(len(c.parts))) % 4294967296
+//@   ensures [part-count-field] le32(result, 28) == len(c.parts)
+//@   ensures [version] int(result[20]) == 1 && int(result[21]) == 0 && int(result[22]) == 0 && int(result[23]) == 0
+//@   ensures [offset-table] forall k int :: 0 <= k && k < len(c.parts) ==> le32(result, 32+4*k) == (32 + 4*len(c.parts) + prefix(k)) % 4294967296
+//@   ensures [part-size-fields] forall k int :: 0 <= k && k < len(c.parts) ==> le32(result, 32 + 4*len(c.parts) + prefix(k) + 4) == len(c.parts[k].data) % 4294967296
+//@   ensures [part-fourcc] forall k int :: 0 <= k && k < len(c.parts) ==> le32(result, 32 + 4*len(c.parts) + prefix(k)) == int(c.parts[k].fourCC)
+//@   nopanic
+//@   nooverflow
+//@   loop 1 invariant [idx] -1 <= rangeindex && rangeindex < len(c.parts)
+//@   loop 1 invariant [total] totalSize == 32 + 4*len(c.parts) + prefix(rangeindex+1)
+//@   loop 2 invariant [idx] -1 <= rangeindex && rangeindex < len(c.parts)
+//@   loop 2 invariant [pos] pos == 32 + 4*len(c.parts) + prefix(rangeindex+1)
+//@   loop 2 invariant [total-size-field] le32(out, 24) == (32 + 4*len(c.parts) + prefix(len(c.parts))) % 4294967296
+//@   loop 2 invariant [part-count-field] le32(out, 28) == len(c.parts)
+//@   loop 2 invariant [version] int(out[20]) == 1 && int(out[21]) == 0 && int(out[22]) == 0 && int(out[23]) == 0
+//@   loop 2 invariant [offset-table] forall k int :: 0 <= k && k <= rangeindex ==> le32(out, 32+4*k) == (32 + 4*len(c.parts) + prefix(k)) % 4294967296
+//@   loop 2 invariant [part-size-fields] forall k int :: 0 <= k && k <= rangeindex ==> le32(out, 32 + 4*len(c.parts) + prefix(k) + 4) == len(c.parts[k].data) % 4294967296
+//@   loop 2 invariant [part-fourcc] forall k int :: 0 <= k && k <= rangeindex ==> le32(out, 32 + 4*len(c.parts) + prefix(k)) == int(c.parts[k].fourCC)
